@@ -23,6 +23,7 @@ import (
 	smtpendp "github.com/foxcpp/maddy/internal/endpoint/smtp"
 	"github.com/foxcpp/maddy/internal/verifsim/actors"
 	"github.com/foxcpp/maddy/internal/verifsim/harness"
+	"github.com/foxcpp/maddy/internal/verifsim/simfs"
 	"github.com/foxcpp/maddy/internal/verifsim/simnet"
 	"github.com/foxcpp/maddy/internal/verifsim/simrt"
 	"golang.org/x/net/idna"
@@ -187,6 +188,7 @@ type world struct {
 	net      *simnet.Net
 	clients  []*client
 	shutDown bool // the server has been shut down in the middle of the run
+	fileBuf  bool // bodies are spilled to a file buffer on the simulated disk
 }
 
 var rcptPool = []string{"u1@a.example", "u2@a.example", "U3@A.EXAMPLE", "u4@b.example", "u5@b.example", "x@c.example", "ü6@a.example", "u7@xn--e1aybc.example"}
@@ -341,6 +343,23 @@ func (w *world) build() error {
 		}
 	}
 	cfg = append(cfg, node("max_received", "3"))
+	// in a quarter of the runs message bodies longer than a few bytes are
+	// buffered in a file (the endpoint's `buffer auto <size> <dir>` with a tiny
+	// threshold, on the simulated disk): a connection that breaks inside the
+	// body then breaks the stream while it is being spilled
+	if s.T.Choose(st, 4) == 0 {
+		fs := simfs.New()
+		simfs.Use(fs)
+		simfs.MkdirAll("/epbuf", 0o755)
+		simfs.CanonName = func(b string) string {
+			if b == "epbuf" || len(b) <= 2 {
+				return b
+			}
+			return s.ID("file", b)
+		}
+		w.fileBuf = true
+		cfg = append(cfg, node("buffer", "auto", "24b", "/epbuf"))
+	}
 	if w.family == 1 {
 		cfg = append(cfg, node("deliver_to", "&t1"))
 	} else if w.family == 3 {
@@ -954,6 +973,7 @@ func (w *world) doAuth(cl *actors.SMTPClient, name string, kind int) actors.Repl
 // Run is the world function for C03 (and the endpoint parts of C11/C16).
 func Run(s *simrt.Sim, a *harness.Args, r *harness.Result) {
 	log.DefaultLogger.Out = log.NopOutput{}
+	defer func() { simfs.CanonName = nil }()
 	w := &world{s: s, a: a, net: simnet.New()}
 	s.MaxSteps = 60000
 	s.PreemptBudget = []int{0, 1, 2, -1}[s.T.Choose("knob", 4)]
@@ -1054,7 +1074,7 @@ func Run(s *simrt.Sim, a *harness.Args, r *harness.Result) {
 
 func (w *world) shape() string {
 	var sb strings.Builder
-	fmt.Fprintf(&sb, "lmtp=%v defer=%v lim=%d fam=%d chk=%d mod=%v auth=%d|", w.lmtp, w.deferRj, w.limitN, w.family, len(w.checks), w.mod != nil, w.authMode)
+	fmt.Fprintf(&sb, "lmtp=%v defer=%v lim=%d fam=%d chk=%d mod=%v auth=%d fbuf=%v|", w.lmtp, w.deferRj, w.limitN, w.family, len(w.checks), w.mod != nil, w.authMode, w.fileBuf)
 	for _, c := range w.clients {
 		if c.AuthFirst {
 			fmt.Fprintf(&sb, "[%s auth=%d]", c.name, c.AuthKind)
